@@ -45,6 +45,8 @@ func runStatic(prog *Prog, sc StaticCheck) *StaticResult {
 		return runNoReach(prog, sc)
 	case "arg-origin":
 		return runArgOrigin(prog, sc)
+	case "publishes-fresh":
+		return runPublishesFresh(prog, sc)
 	case "critical-section":
 		return runCriticalSection(prog, sc)
 	case "atomic-write":
@@ -412,8 +414,15 @@ func runGate(prog *Prog, sc StaticCheck) *StaticResult {
 						gated = true
 					}
 				}
+				// the returned error is known non-nil here: the block is dominated by the true branch of `if V != nil`
+				// (or the false branch of `if V == nil`) on this very value
+				if !gated && errKnownNonNil(last, b) {
+					res.Discharged++
+					continue
+				}
 				if gated {
 					res.Discharged++
+					nret++
 				} else {
 					res.Failures = append(res.Failures, fmt.Sprintf("%s returns an error value that may be nil at %s without passing %s", sc.Args["func"], prog.Fset.Position(ret.Pos()), gate))
 				}
@@ -659,4 +668,35 @@ func runImportCheck(prog *Prog, sc StaticCheck) *StaticResult {
 	res.Samples = append(res.Samples, map[string]interface{}{"obligation": fmt.Sprintf("%s#imports(require %s; forbid %s)", sc.Pkg, sc.Args["require"], sc.Args["forbid"]), "backend": "go/types"})
 	res.Trusted = append(res.Trusted, "html/template escapes interpolated values according to their HTML/JS/URL context")
 	return res
+}
+
+// errKnownNonNil: block b is only reached through the non-nil branch of a test of v against nil.
+func errKnownNonNil(v ssa.Value, b *ssa.BasicBlock) bool {
+	for _, hb := range b.Parent().Blocks {
+		ifi, ok := hb.Instrs[len(hb.Instrs)-1].(*ssa.If)
+		if !ok {
+			continue
+		}
+		bin, ok := ifi.Cond.(*ssa.BinOp)
+		if !ok || (bin.Op != token.NEQ && bin.Op != token.EQL) {
+			continue
+		}
+		var other ssa.Value
+		if c, ok := bin.Y.(*ssa.Const); ok && c.Value == nil {
+			other = bin.X
+		} else if c, ok := bin.X.(*ssa.Const); ok && c.Value == nil {
+			other = bin.Y
+		}
+		if other != v {
+			continue
+		}
+		succ := hb.Succs[0]
+		if bin.Op == token.EQL {
+			succ = hb.Succs[1]
+		}
+		if len(succ.Preds) == 1 && (succ == b || succ.Dominates(b)) {
+			return true
+		}
+	}
+	return false
 }
